@@ -109,18 +109,19 @@ theorem chain_member_used {p : Params} (hp : ParamsOK p) {fat cs : List Nat} (h 
 /-! ## the follower on a well-formed chain -/
 
 theorem follow_chain {p : Params} (hp : ParamsOK p) (fat : List Nat) :
-    ∀ (cs : List Nat) (c : Nat) (rest : List Nat) (fuel : Nat) (acc : List Nat),
-      cs = c :: rest → IsChain p fat cs → cs.length ≤ fuel →
-      follow p fat fuel c acc = .ok (acc ++ cs) := by
+    ∀ (cs : List Nat) (c : Nat) (rest : List Nat) (fuel steps : Nat) (acc : List Nat),
+      cs = c :: rest → IsChain p fat cs → cs.length ≤ fuel → steps + cs.length ≤ fat.length + 1 →
+      follow p fat fuel steps c acc = .ok (acc ++ cs) := by
   intro cs
   induction cs with
-  | nil => intro c rest fuel acc h; simp at h
+  | nil => intro c rest fuel steps acc h; simp at h
   | cons a tail ih =>
-    intro c rest fuel acc heq hch hfuel
+    intro c rest fuel steps acc heq hch hfuel hsteps
     simp only [List.cons.injEq] at heq
     obtain ⟨rfl, rfl⟩ := heq
     obtain ⟨f', rfl⟩ : ∃ f', fuel = f' + 1 := ⟨fuel - 1, by simp at hfuel; omega⟩
     have hlt : a < fat.length := hch.inTable a (by simp)
+    simp only [List.length_cons] at hsteps
     rw [follow, if_neg (by omega), if_neg (by omega)]
     cases tail with
     | nil =>
@@ -134,7 +135,7 @@ theorem follow_chain {p : Params} (hp : ParamsOK p) (fat : List Nat) :
         refine ⟨by simp, (List.nodup_cons.mp hch.nodup).2, fun c hc => hch.inTable c (by simp at hc ⊢; right; exact hc), ?_, ?_⟩
         · intro ab hab; exact hch.next ab (by simp [pairs]; right; exact hab)
         · intro l hl; exact hch.last l (by simpa [List.getLast?_cons_cons] using hl)
-      rw [ih b tail' f' (acc ++ [a]) rfl hch' (by simp at hfuel ⊢; omega)]
+      rw [ih b tail' f' (steps + 1) (acc ++ [a]) rfl hch' (by simp at hfuel ⊢; omega) (by simp at hsteps ⊢; omega)]
       simp
 
 /-! ## the invariant -/
@@ -290,16 +291,36 @@ theorem free_preserves {p : Params} (hp : ParamsOK p) {count : Nat} {fat : List 
 theorem free_follows_chain {p : Params} (hp : ParamsOK p) {fat cs : List Nat} (c : Nat) (rest : List Nat)
     (h : IsChain p fat cs) (hcs : cs = c :: rest) : chainOf p fat c = .ok cs := by
   unfold chainOf
-  have := follow_chain hp fat cs c rest (fat.length + 1) [] hcs h ?_
-  · simpa using this
-  · -- a duplicate-free list of indices below `fat.length` is no longer than the table
-    have hnd := h.nodup
-    have hlt := h.inTable
-    have : cs.length ≤ fat.length := by
-      have hsub : cs ⊆ List.range fat.length := fun x hx => List.mem_range.mpr (hlt x hx)
-      have := List.Nodup.length_le_of_subset hnd hsub
-      simpa using this
-    omega
+  -- a duplicate-free list of indices below `fat.length` is no longer than the table
+  have hlen : cs.length ≤ fat.length := by
+    have hsub : cs ⊆ List.range fat.length := fun x hx => List.mem_range.mpr (h.inTable x hx)
+    have := List.Nodup.length_le_of_subset h.nodup hsub
+    simpa using this
+  have := follow_chain hp fat cs c rest (fat.length + 2) 0 [] hcs h (by omega) (by omega)
+  simpa using this
+
+/-- **the follower always terminates** (C13): with the loop counter of the source, no table
+    and no start cluster make it run out of `len + 2` steps — a cyclic chain ends in `.loop` -/
+theorem follow_never_hangs (p : Params) (fat : List Nat) :
+    ∀ (fuel steps i : Nat) (acc : List Nat), fat.length + 2 ≤ fuel + steps → steps ≤ fat.length + 1 →
+      ∀ c, follow p fat fuel steps i acc ≠ .hang c := by
+  intro fuel
+  induction fuel with
+  | zero => intro steps i acc h hs c; omega
+  | succ fuel ih =>
+    intro steps i acc h hs c
+    rw [follow]
+    split
+    · simp
+    · split
+      · simp
+      · rename_i h1 h2
+        split
+        · exact ih (steps + 1) _ _ (by omega) (by omega) c
+        all_goals simp
+
+theorem chainOf_never_hangs (p : Params) (fat : List Nat) (start : Nat) : ∀ c, chainOf p fat start ≠ .hang c :=
+  follow_never_hangs p fat (fat.length + 2) 0 start [] (by omega) (by omega)
 
 end Proofs.FatRep
 
